@@ -109,9 +109,9 @@ var PermissiveDialer transport.StreamDialer = &transport.TCPDialer{}
 // Scripted TCP target.
 
 type TCPTarget struct {
-	L     *net.TCPListener
-	Addr  string
-	conns chan *net.TCPConn
+	L      *net.TCPListener
+	Addr   string
+	conns  chan *net.TCPConn
 	mu     sync.Mutex
 	all    []*net.TCPConn
 	closed bool
